@@ -54,6 +54,10 @@ class IsoTpStateMachine:
         except ValueError:
             return  # unknown CAN ID
 
+        if len(data) == 0:
+            # frames without any data cannot be ISO-TP frames
+            return
+
         # decode the isotp segment
         frame_type, _ = bitstruct.unpack("u4u4", data)
         assert isinstance(frame_type, int)
@@ -78,6 +82,11 @@ class IsoTpStateMachine:
             yield (rx_id, telegram_data)
 
         elif frame_type == IsoTp.FRAME_TYPE_FIRST:
+            if len(data) < 2:
+                # truncated first frame
+                self.on_frame_type_error(telegram_idx, frame_type)
+                return
+
             frame_type, telegram_len = bitstruct.unpack("u4u12", data)
             assert isinstance(telegram_len, int)
 
